@@ -1666,7 +1666,7 @@ class BoundaryArc(Geodesic):
         point_data[degenerate, 2] = orientation_pt_2[degenerate, 0]
 
         signs = utils.det(point_data).astype('float64')
-        point_data[dets < 0, 2] *= -1
+        point_data[signs < 0, 2] *= -1
 
         self.set(point_data)
 
